@@ -78,8 +78,9 @@ def judge_write(content, w, v, reads, cfgname, hist):
 
 
 def work_tiny(arg, timeout_ms=3000):
-    cfg, manual, mn, mx, contents, hists_by_len, scheds, closefds = arg
-    job = [cfg.line(manual=manual, mn=mn, mx=mx), "read %s" % scheds, "closemask %d" % closefds, "timeout %d" % timeout_ms]
+    cfg, manual, mn, mx, contents, hists_by_len, scheds, closefds = arg[:8]
+    refuse = arg[8] if len(arg) > 8 else 0
+    job = [cfg.line(manual=manual, mn=mn, mx=mx, refuse=refuse), "read %s" % scheds, "closemask %d" % closefds, "timeout %d" % timeout_ms]
     meta = []
     for content in contents:
         job.append("content %s" % (content.hex() or "-"))
@@ -96,8 +97,12 @@ def work_tiny(arg, timeout_ms=3000):
         res["tr"] += h.count(",") + 2
         w = c.first("W")
         case = {"part": "A", "cfg": [cfg.comp, cfg.dict.hex(), cfg.uncomp, cfg.chash, cfg.fhash], "manual": manual, "min": mn, "max": mx,
-                "content": content.hex(), "hist": h, "scheds": scheds, "closefds": closefds}
+                "content": content.hex(), "hist": h, "scheds": scheds, "closefds": closefds, "refuse": refuse}
         klass = {"check": "C01", "part": "A", "chunking": "manual" if manual else "auto", "minmax": "%d,%d" % (mn, mx), "closefds": closefds}
+        if refuse:
+            klass["after_refused_option_calls"] = True
+            if w is not None and "accepted" in w:
+                continue       # one of the calls was accepted: it is part of the configuration then, no claim
         what0 = "%s %s min=%d max=%d closefds=%d content=%d bytes history=%s" % (cfg.name(), "manual" if manual else "auto", mn, mx, closefds, len(content), h)
         if not c.done or w is None:
             st = c.status()
@@ -439,6 +444,11 @@ def run(ctx):
         for manual in (1, 0):
             for mn, mx in MINMAX:
                 jobs.append((cfg, manual, mn, mx, contents, hbl, "1;3;32768", 0))
+    # option calls the library refuses (each followed by zck_clear_error) in front of the histories: they are not configuration
+    for cfg in (cfgs[0], cfgs[2], cfgs[4]):
+        for manual in (1, 0):
+            for mn, mx in MINMAX[:3]:
+                jobs.append((cfg, manual, mn, mx, contents, hbl, "1;32768", 0, 1))
     # zck_init_write with closed descriptors
     for closefds in (1, 2, 3, 4, 5, 6, 7):     # bit mask of closed descriptors
         for cfg in (cfgs[0], cfgs[2]):
@@ -482,7 +492,7 @@ def replay(case, quiet=True):
         cfg = Cfg(c[0], bytes.fromhex(c[1]), c[2], c[3], c[4])
         content = bytes.fromhex(case["content"])
         # a timed-out case is confirmed with ten times the limit before it is called a hang
-        r = work_tiny((cfg, case["manual"], case["min"], case["max"], [content], {len(content): [case["hist"]]}, case["scheds"], case["closefds"]), 30000)
+        r = work_tiny((cfg, case["manual"], case["min"], case["max"], [content], {len(content): [case["hist"]]}, case["scheds"], case["closefds"], case.get("refuse", 0)), 30000)
     elif case["part"] == "B":
         kind, n = case["content_gen"].split("/")
         content = gen(kind, int(n), int(os.environ.get("VERIF_SEED", "0") or 0))
